@@ -19,7 +19,7 @@ def _acquire(**kw):
 def _nat(w):
     return 8 if w % 8 == 0 else 4 if w % 4 == 0 else 2 if w % 2 == 0 else 1
 def _uw(w):   # copy loops: one word per iteration, ceil(W/8) words at most (+ exit test)
-    n = (w + 7) // 8 + 1
+    n = (w + 7) // 8 + 2   # one spare iteration, so that an over-run is reported by sl.copy.in_bounds and not only by the unwinding assertion
     return ['sl_read_data.0:%d' % n, 'sl_store_data.1:%d' % n]
 SEQ_UW = ['sl_acquire_lock.0:1', 'sl_acquire_lock.1:2', 'sl_load.0:1', 'sl_load.1:2']
 def _run(kind, entry, w, a, s, tiers, mode='SEQ', cls='shape-complete', extra=(), **kw):
@@ -42,7 +42,7 @@ for s in (1, 2, 3, 4, 8):
     if s > 1:
         RUNS.append(_run('load_solo', 'h_load_solo', 16, 8, s, Q, mode='SOLO', extra=['sl_load.0:1', 'sl_load.1:3'], unwind_obligation='sl.load.terminates'))
 for s in (1, 2, 3, 4, 8):
-    RUNS.append(_run('mod_lemma', 'h_mod_lemma', 16, 8, s, Q, cls='unbounded'))
+    RUNS.append(_run('mod_lemma', 'h_mod_lemma', 16, 8, s, Q))
 RUNS.append(_run('acquire_int', 'h_acquire_int', 16, 8, 2, Q, mode='INT', cls='unbounded'))
 for (w, a, s) in [(24, 8, 2), (24, 8, 3), (64, 8, 2), (12, 4, 2), (20, 4, 3), (33, 1, 3)]:
     t = Q if (w, s) == (24, 2) else TH
@@ -54,14 +54,18 @@ UNIT = dict(
   title='seqlock: word-wise copy, slot arithmetic, lock parity, reader validation (C14)',
   properties=['C14'],
   drops='templates: T is a struct of XV_W bytes with alignment XV_A (so sizeof(T)/alignof(T) in the extracted text evaluate to the shape), '
-        'slots is the shape XV_S with the declared type read from the header; storage_t is rebuilt from the two template arguments of '
-        'std::aligned_storage read from the header; std::atomic<copy_t> viewed through reinterpret_cast becomes a plain copy_t cell; '
-        'by-reference parameters become pointers; the update functor is a stub that records the value it was applied to and produces an arbitrary new value; '
-        'load\'s call of read_data goes through a recording wrapper (SL_READ_DATA) that calls the real lowered read_data',
+        'slots is the shape XV_S with the declared type read from the header; storage_t, copy_t, sequence_t are rebuilt (sl_types.h, included into lowered.h through '
+        'the c_sig of the first source) from the constant expressions read from the header (both template arguments of std::aligned_storage); '
+        'std::atomic<copy_t> viewed through reinterpret_cast becomes a plain copy_t cell; by-reference parameters become pointers; '
+        'the update functor is a stub that records the value it was applied to and produces an arbitrary new value; '
+        'the calls of read_data/store_data inside load/store/update go through recording wrappers (SL_READ_DATA/SL_STORE_DATA) that call the real lowered '
+        'functions once per possible slot (case split, constant slot address in each branch); '
+        'XV_A_LOAD is re-#defined in harness.c to the same sequence with the value routed through an identity function (cbmc 6.11 encoding defect, see comment there); '
+        'outside h_copy an obligation, once asserted, is assumed for the obligations that follow it in the same harness (it is reported on its own when it fails)',
   assumptions=[
-    'no wrap of _seq (fewer than 2^62 writes in the life of a seqlock); for slot counts that are not powers of two the slot sequence is not continuous across the 2^64 wrap',
+    'no wrap of _seq: all harnesses range over every 64-bit value of _seq except the last 16 before the wrap (for slot counts that are not powers of two the slot sequence is not continuous across the 2^64 wrap: after 2^63 writes one load would return a stale slot)',
     'the seqlock object is aligned to alignof(std::atomic<uintptr_t>) = 8 and _data follows _seq at offset max(8, alignof(storage_t))',
-    'reader rely (INT runs): _seq only increases; a slot changes only while _seq is an odd value 2j+1 and the slot is ((j+1) mod slots) - proved as the guarantee of store/update (sl.writer.guarantee) plus writer mutual exclusion (sl.lock.acquire)',
+    'reader rely (INT runs): R1 _seq only increases; R2 a slot changes only while _seq is an odd value 2j+1 and the slot is ((j+1) mod slots) - proved as the guarantee of store/update (sl.writer.guarantee) plus writer mutual exclusion (sl.lock.acquire). The INT environment is a superset of R1+R2: it protects only the slot a read_data call is in progress on, until _seq has advanced by a full round (sl.env.mod_lemma + sl.slot.reader justify that this covers R2)',
     'writer rely: while _seq holds the odd value installed by this thread\'s CAS nobody else writes _seq or _data (same guarantee, applied to the other writers)',
     'weak memory: sequentially consistent model; the fences/orders that the numbered comments (1)-(7) rely on are checked as present (sl.load.sync, sl.store.sync)',
     'update functor does not throw and does not touch the seqlock (documented precondition)',
